@@ -67,6 +67,39 @@ func runC44(c *Ctx) {
 		if len(onceClosures) == 0 {
 			c.Undecided("teardown-once", "closeOnce.Do@closeKnown", "closeKnown no longer runs its body through closeOnce.Do")
 		}
+		// the once region also holds the unexported helpers that are only ever called from it (the
+		// closure's body moved into a method): they run at most once, inside the once, like the closure
+		for changed := true; changed; {
+			changed = false
+			inRegion := map[*ssa.Function]bool{}
+			for _, f := range onceClosures {
+				inRegion[f] = true
+			}
+			for _, f := range onceClosures {
+				eachInstr(f, func(in ssa.Instruction) {
+					cc := callOf(in)
+					if cc == nil || cc.IsInvoke() {
+						return
+					}
+					g := staticCallee(cc)
+					if g == nil || g.Blocks == nil || inRegion[g] || !isUnexportedHelper(g) {
+						return
+					}
+					callers := staticCallersOf(g)
+					if len(callers) == 0 {
+						return
+					}
+					for _, cs := range callers {
+						if !inRegion[cs.Parent()] {
+							return
+						}
+					}
+					inRegion[g] = true
+					onceClosures = append(onceClosures, Closures(g)...)
+					changed = true
+				})
+			}
+		}
 	}
 	inOnce := func(fn *ssa.Function) bool {
 		for _, f := range onceClosures {
@@ -303,7 +336,32 @@ func runC44(c *Ctx) {
 			}
 			// closure call graph among rl's closures via captured variables
 			calls := map[*ssa.Function][]*ssa.Function{}
-			for _, f := range Closures(rl) {
+			// the read loop, its closures, and the unexported helpers it was split into (with theirs)
+			var cands []*ssa.Function
+			for _, g := range deepFuncs(rl, 1) {
+				if g.Parent() == nil {
+					cands = append(cands, Closures(g)...)
+				}
+			}
+			closuresOf := func(v ssa.Value) (out []*ssa.Function) {
+				for _, o := range origins(v, 4) {
+					if m2, ok := o.(*ssa.MakeClosure); ok {
+						out = append(out, m2.Fn.(*ssa.Function))
+					}
+					if ld, ok := o.(*ssa.UnOp); ok {
+						if al, ok := ld.X.(*ssa.Alloc); ok {
+							for _, sv := range storesTo(al) {
+								if m2, ok := sv.(*ssa.MakeClosure); ok {
+									out = append(out, m2.Fn.(*ssa.Function))
+								}
+							}
+						}
+					}
+				}
+				return
+			}
+			for _, f := range cands {
+				f := f
 				eachInstr(f, func(in ssa.Instruction) {
 					cc := callOf(in)
 					if cc == nil || cc.IsInvoke() {
@@ -311,6 +369,20 @@ func runC44(c *Ctx) {
 					}
 					if g := staticCallee(cc); g != nil {
 						calls[f] = append(calls[f], g)
+						return
+					}
+					// call of a func-typed parameter: the closures its callers pass
+					if prm, ok := cc.Value.(*ssa.Parameter); ok {
+						for i, q := range f.Params {
+							if q != prm {
+								continue
+							}
+							for _, cs := range staticCallersOf(f) {
+								if i < len(cs.Common().Args) {
+									calls[f] = append(calls[f], closuresOf(cs.Common().Args[i])...)
+								}
+							}
+						}
 						return
 					}
 					// call of a captured/local func variable: resolve to the closures stored in it
@@ -373,7 +445,7 @@ func runC44(c *Ctx) {
 				return dfs(from)
 			}
 			var guard *ssa.Function
-			for _, f := range Closures(rl) {
+			for _, f := range cands {
 				if recovers(f) && reaches(f) {
 					guard = f
 				}
@@ -391,7 +463,7 @@ func runC44(c *Ctx) {
 					for _, g := range calls[rl] {
 						_ = g
 					}
-					tgt := false
+					tgt := !cc.IsInvoke() && staticCallee(cc) == guard
 					for _, o := range origins(cc.Value, 4) {
 						if ld, ok := o.(*ssa.UnOp); ok {
 							if al, ok := ld.X.(*ssa.Alloc); ok {
